@@ -117,7 +117,8 @@ def Windows(entries, tier):
                     'sensitive': sorted(set(progs) & sens),
                     'victims': sorted(set(progs) & vict),
                     'attrs': [{'n': p, 'stage': by_idx[p]['fail_stage'],
-                               'eng': by_idx[p]['engine']} for p in progs]})
+                               'eng': by_idx[p]['engine'],
+                               'mods': by_idx[p]['modules']} for p in progs]})
   for e in entries:
     Add('solo', [e['idx']], solo_seeds, ['parse'], 1)
   for e in entries:
@@ -159,6 +160,16 @@ def Windows(entries, tier):
       for c in range(b + 1, len(vs)):
         Add('xeng3', [vs[a], vs[b], vs[c]], [solo_seeds[k % len(solo_seeds)]],
             ['parse'], 3)
+        k += 1
+  # import history: every pair of the importing main programs (same parser),
+  # both orders are histories of the window
+  for parser in ('PY', 'CPP'):
+    mains = [e['idx'] for e in entries if 'importhist' in e['kind'] and
+             e['parser'] == parser]
+    for a in range(len(mains)):
+      for b in range(a + 1, len(mains)):
+        Add('imphist', [mains[a], mains[b]], [solo_seeds[k % len(solo_seeds)]],
+            ['parse'] if (a + b) % 2 else ['parse', 'reuse'], 2)
         k += 1
   # a FAILING step of every stage, then a victim of another engine
   for k, f in enumerate(failing):
@@ -267,6 +278,8 @@ AS_BUILT = {
         w['tag'] == 'incant' and w['sensitive'] and
         any(stage[p] == 'parse' for p in w['incant']))),
     'leak': ('MCHistory_leak.cfg', lambda w, stage: w['tag'] == 'xeng2'),
+    'importcache': ('MCHistory_importcache.cfg',
+                    lambda w, stage: w['tag'] == 'imphist'),
 }
 
 
@@ -295,7 +308,7 @@ def AsBuiltPredictions(windows, workdir):
                               ('tag', 'progs', 'modes', 'maxlen', 'attrs')},
                    'counterexample_last_state_hist':
                        re.sub(r'\s+', ' ', m.group(1)) if m else ''}
-  with cf.ThreadPoolExecutor(max_workers=3) as ex:
+  with cf.ThreadPoolExecutor(max_workers=4) as ex:
     return dict(ex.map(One, sorted(AS_BUILT)))
 
 
@@ -386,6 +399,14 @@ def Select(histories, windows, tier, entries):
               len({p for p, _ in Segments(h)[0][1]}) == 2]
       required += must
       samples_by_w.append([])
+    elif w['tag'] == 'imphist':
+      # always: main program i then main program j, re-parsed, one process
+      must = [h for h in hs if Shape(h) == (1, 2) and
+              len({p for p, _ in Segments(h)[0][1]}) == 2 and
+              all(m == 'parse' for _, m in Segments(h)[0][1])]
+      required += must
+      rest = [h for h in hs if h not in must and Shape(h)[0] == 1]
+      samples_by_w.append(rng.sample(rest, min(len(rest), 2)))
     elif w['tag'] == 'xeng3':
       perms = [h for h in hs if Shape(h) == (1, 3) and
                len({p for p, _ in Segments(h)[0][1]}) == 3]
@@ -475,7 +496,7 @@ class Runner:
                  'cwd': self.cwd,
                  'actions': [{'prog': p, 'mode': m} for p, m in acts]}, f)
     env = dict(os.environ, PYTHONHASHSEED=str(seed), LOGICA_REPO=common.REPO)
-    env.pop('LOGICA_PARSER', None)
+    env.pop('LOGICA_PARSER', None)     # set per program by the worker
     try:
       p = subprocess.run([common.PY, '-m', 'harness.c13worker', job],
                          cwd=common.VERIF, env=env, capture_output=True,
@@ -529,7 +550,7 @@ def TraceOf(h, windows, loaded):
       rec = loaded[segs[si]]
       events.append({'step': step, 'a': 'new', 'seed': rec['seed'], 'prog': 0,
                      'pred': '', 'mode': '-', 'used': False, 'pf': False,
-                     'sql': '', 'aux': ''})
+                     'rul': '', 'sql': '', 'aux': ''})
     else:
       rec = loaded[segs[si]]
       for e in rec['events']:
@@ -538,6 +559,7 @@ def TraceOf(h, windows, loaded):
                          'prog': e['prog'], 'pred': e['pred'],
                          'mode': e['mode'], 'used': e['used'],
                          'pf': bool(e['parse_failed']),
+                         'rul': e.get('rul', ''),
                          'sql': e['sql'], 'aux': e['aux']})
       ai += 1
   return {'id': h['id'], 'hist': h['h'], 'inc': windows[h['w']]['incant'],
@@ -647,6 +669,8 @@ def Signature(dv, entry, ev, fev, seg, fseg, got_text, want_text,
               bool(dv.get('explained_fail')),
           'other_engine_compiled_before_in_process':
               bool(dv.get('explained_leak')),
+          'module_imported_before_for_other_program':
+              bool(dv.get('explained_import')),
           'equals_incanted_variant': equals_variant,
           'seed_differs_from_first': bool(seg and fseg and seg[0] != fseg[0]),
           'iteration_program': bool(ev and ev.get('iterations')),
@@ -720,7 +744,10 @@ def Judge(entries, windows, histories, runner, workdir, tag, shards,
                 (' [flag left on by a failed parse]'
                  if dv.get('explained_fail') and not dv['explained'] else '') +
                 (' [another engine was compiled before in this process]'
-                 if dv.get('explained_leak') else ''), dv['first_trace'],
+                 if dv.get('explained_leak') else '') +
+                (' [a module it imports was imported before for another '
+                 'program]' if dv.get('explained_import') else ''),
+                dv['first_trace'],
                 dv['first_step'], HistoryText(h, by_idx)), flush=True)
   return {'order': order, 'traces': traces, 'verdicts': verdicts,
           'vstats': vstats, 'deviations': deviations, 'shape_bad': shape_bad,
@@ -738,7 +765,7 @@ def EventOf(h, dv, windows, loaded):
       continue
     if step == dv['step']:
       for e in loaded[segs[si]]['events']:
-        key = 'aux' if dv['clause'] == 'aux' else 'sql'
+        key = {'aux': 'aux', 'rules': 'rul'}.get(dv['clause'], 'sql')
         if (e['action'] == ai and e['pred'] == dv['pred'] and
             e[key] == dv['got'] and e['used'] == dv['used']):
           return segs[si], e
@@ -769,7 +796,8 @@ def Classify(j, entries, windows, runner, workdir, classifier):
   groups = collections.OrderedDict()
   for h, dv in j['deviations']:
     key = (dv['prog'], dv['pred'], dv['clause'], dv['got'], dv['explained'],
-           dv.get('explained_fail'), dv.get('explained_leak'))
+           dv.get('explained_fail'), dv.get('explained_leak'),
+           dv.get('explained_import'))
     groups.setdefault(key, []).append((h, dv))
   variants = {}
   violations, known = [], collections.Counter()
@@ -790,6 +818,7 @@ def Classify(j, entries, windows, runner, workdir, classifier):
         equals_variant = (variants[vk][1 if dv['clause'] == 'aux' else 0] ==
                           dv['got'])
     tkey = 'aux' if dv['clause'] == 'aux' else 'sql'
+    # (clause "rules": the SQL texts are shown; the rules digests are in dv)
     got_text = runner.Text(seg, ev[tkey]) if ev else None
     want_text = runner.Text(fseg, fev[tkey]) if fev else None
     sig = Signature(dv, entry, ev, fev, seg, fseg, got_text, want_text,
@@ -892,6 +921,7 @@ def Coverage(entries, windows, j):
   shapes = collections.Counter()
   feats = collections.Counter()
   engine_pairs, engine_triples = set(), set()
+  import_pairs = set()
   next_after_failed_inc = set()
   for h in j['order']:
     segs = Segments(h)
@@ -939,6 +969,12 @@ def Coverage(entries, windows, j):
             feats['failed_step_then_victim_of_other_engine'] += 1
         if b in w['victims'] and eng[a] != eng[b]:
           engine_pairs.add((eng[a], eng[b]))
+      for k in range(len(ps) - 1):
+        a, b = by_idx[ps[k]], by_idx[ps[k + 1]]
+        if ('importhist' in a['kind'] and 'importhist' in b['kind'] and
+            a['idx'] != b['idx'] and a['parser'] == b['parser']):
+          feats['import_history_%s' % a['parser']] += 1
+          import_pairs.add((a['id'], b['id']))
       vs = [p for p in ps if p in w['victims']]
       if len(vs) == 3 and len({eng[p] for p in vs}) == 3 and len(ps) == 3:
         engine_triples.add(tuple(eng[p] for p in vs))
@@ -972,7 +1008,15 @@ def Coverage(entries, windows, j):
   for e in entries:
     if 'victim' in e['kind'] and e['engine'] in victim_ok:
       used_builtins |= set(e['victim_uses'])
+  imp = {}
+  for parser in ('PY', 'CPP'):
+    ids = [e['id'] for e in entries if 'importhist' in e['kind'] and
+           e['parser'] == parser]
+    want = {(a, b) for a in ids for b in ids if a != b}
+    imp[parser] = sorted('%s>%s' % p for p in want - import_pairs)
   return {
+      'import_history_ordered_pairs': len(import_pairs),
+      'import_history_missing': imp,
       'engine_ordered_pairs': len(engine_pairs & all_pairs),
       'engine_ordered_pairs_missing': sorted(
           '%s>%s' % p for p in all_pairs - engine_pairs),
@@ -999,7 +1043,9 @@ REQUIRED_HISTORY_FEATURES = (
     'has_reuse', 'program_repeated', 'different_programs_in_one_process',
     'several_seeds', 'incantation_then_flag_sensitive_same_process',
     'window:solo', 'window:soloreuse', 'window:incant', 'window:pair',
-    'window:xeng2', 'window:xeng3', 'window:failx',
+    'window:xeng2', 'window:xeng3', 'window:failx', 'window:imphist',
+    # import history: importing main program i then j in one process
+    'import_history_PY', 'import_history_CPP',
     # shape A: failing steps of every stage, in particular a FAILED parse of an
     # incantation program immediately followed by a flag-sensitive program
     'failed_incantation_parse_then_flag_sensitive_next',
@@ -1024,6 +1070,10 @@ def Missing(cov, entries, cinfo):
   if cov['engine_ordered_pairs_missing']:
     missing.append('engine orders never replayed: %s' %
                    cov['engine_ordered_pairs_missing'][:6])
+  for parser, lacking in cov['import_history_missing'].items():
+    if lacking:
+      missing.append('import history (%s parser) never replayed: %s' % (
+          parser, lacking[:4]))
   if cov['engine_ordered_triples'] == 0:
     missing.append('no ordered triple of engines')
   if cov['victims_compiled'] != cov['victim_engines'] or len(
@@ -1066,6 +1116,10 @@ def Run(tier):
   for f in os.listdir(workdir):
     if f.startswith('windows') or f.startswith('corpus'):
       os.unlink(os.path.join(workdir, f))
+  # the C++ parser of the tree under test (some programs are parsed with it);
+  # sets XDG_CACHE_HOME for the worker processes
+  from harness import cppbuild
+  cppbuild.Prepare()
   entries, cinfo = c13corpus.Build(tier)
   corpus_path = os.path.join(workdir, 'corpus.json')
   with open(corpus_path, 'w') as f:
@@ -1134,10 +1188,13 @@ def Run(tier):
   # not deviating where a model does is MODEL-DRIFT (informational)
   unpredicted = [m for m in sorted(AS_BUILT)
                  if not (asbuilt.get(m) and asbuilt[m]['violated'])]
-  label = {'asbuilt': 'explained_by_sticky_parser_flag',
+  label = {'importcache': 'module_imported_before_for_other_program',
+           'asbuilt': 'explained_by_sticky_parser_flag',
            'failsticky': 'explained_by_flag_left_by_failed_parse',
            'leak': 'other_engine_compiled_before_in_process'}
-  what = {'asbuilt': 'sticky parser flag after an incantation program',
+  what = {'importcache': 'a parsed import is kept between main programs '
+                         'with the prefix the first one needed',
+          'asbuilt': 'sticky parser flag after an incantation program',
           'failsticky': 'parser flag left on by a FAILED parse of an '
                         'incantation program',
           'leak': 'translation tables of an engine compiled earlier leak into '
@@ -1229,6 +1286,8 @@ def Run(tier):
           cov['distinct_str_hash_values_across_seeds'],
       'events_differing_only_in_container_order':
           cov['events_differing_only_in_container_order'],
+      'import_history_ordered_pairs_replayed':
+          cov['import_history_ordered_pairs'],
       'engine_ordered_pairs_replayed': cov['engine_ordered_pairs'],
       'engine_ordered_triples_replayed': cov['engine_ordered_triples'],
       'victim_engines': cov['victim_engines'],
@@ -1274,7 +1333,9 @@ def Run(tier):
 def Replay(path):
   with open(path) as f:
     payload = json.load(f)
-  workdir = common.BuildDir('c13', 'replay' + RepoTag())
+  workdir = common.BuildDir("c13", "replay" + RepoTag())
+  from harness import cppbuild
+  cppbuild.Prepare()
   c13corpus.WriteModules()
   entries = payload['corpus']
   for e in entries:
